@@ -4,7 +4,8 @@
 # checks against it with evidence redirected, removes the worktree.
 set -u
 SID=$1; shift
-CHECKS=${@:-${SID%%-*}}
+PROP=$(python3 -c "import json;print(json.load(open('/verif/seeded/$SID/meta.json'))['property'])" 2>/dev/null || echo ${SID%%-*})
+CHECKS=${@:-$PROP}
 WT=/tmp/st/$SID.$$
 mkdir -p /tmp/st
 git -C /repo worktree add -q --detach $WT HEAD || exit 9
